@@ -52,4 +52,35 @@ func init() {
 		Rule:        "same runs as C12, evaluated with the trigger lifecycle oracle: no second Start for a key while a live instance with a settled subscriber serves it, no delivery across different (input, headers), and at quiescence empty registries, every Start context cancelled, Inc/Dec totals equal for subscription and trigger counts. Non-trivial = at least one source instance started and more than one subscriber. Distinct = distinct hash of the sequence of context switches.",
 		Assumptions: subAssume, Components: subComponents,
 	}
+
+	fedComponents := map[string]string{
+		"execution/engine.ExecutionEngine (normalisation, validation, variable handling, plan cache), plan.Planner, postprocess, resolve.Loader/Resolvable, graphql_datasource, httpclient": "real code; resolve, postprocess, plan, graphql_datasource, httpclient, execution/engine AST-instrumented",
+		"subgraph servers (semantic executors over the generated subgraph schemas with request validation), reference monolith, http.RoundTripper (simulated network), client writers":      "stub/harness (own GraphQL parser and executor, independent of the repository's)",
+		"goroutine scheduler (parallel fetches, planner goroutines), map iteration order, clock":                                                                                            "simulated (baton scheduler; seeded map order where stated)",
+	}
+	fedAssume := []string{
+		"generated federations are conservative: 2-4 subgraphs, 1-3 entities keyed by id, scalar/enum/list/value-object/reference fields, @requires on one scalar sibling, @provides of one scalar on reference fields; no interfaces/unions, compound keys, @shareable divergence or @override",
+		"the reference monolith and the subgraph servers share one small executor written for this harness; a bug there would show as a violation on the unchanged tree, not hide one",
+		"baton scheduling serialises execution: pure data races on plain fields are invisible",
+	}
+	props["C01"] = &propCfg{
+		World: "fed01", QuickRuns: 30000, ThorRuns: 1500000, QuickSecs: 200, ThorSecs: 1800, Level: "exploration", MinNontriv: 50,
+		Rule:        "one case = one generated (federation, data universe, 1-3 concurrent operations with variables, aliases, fragments, @skip/@include) executed through the real engine under a seeded schedule of the subgraph answers, compared with the reference monolith (data equal, errors iff reference errors) while every subgraph request is validated against that subgraph's own schema and ownership. Non-trivial = at least two subgraph requests. Distinct = distinct hash of the context-switch sequence.",
+		Assumptions: fedAssume, Components: fedComponents,
+	}
+	props["C08"] = &propCfg{
+		World: "fed08", QuickRuns: 16000, ThorRuns: 800000, QuickSecs: 200, ThorSecs: 1800, Level: "exploration", MinNontriv: 50,
+		Rule:        "one case = one generated (federation, operation, organiser options waves/DAG x multi-fetch) executed under 4-8 different completion orders (tape strategy, reverse arrival order, uniform, arrival order) with subgraph request de-duplication off; data must equal the reference and be identical across schedules, errors and the multiset of subgraph requests (subgraph, body) identical across schedules, every request valid. A request issued before the data it reads was merged shows up as a different or invalid request. Non-trivial = overlapping subgraph requests occurred. Distinct = distinct hash of the context-switch sequence.",
+		Assumptions: append([]string{"dependency order is observed semantically at the network (a fetch issued before its inputs were merged carries missing/short representations), not by reading plan internals"}, fedAssume...), Components: fedComponents,
+	}
+	props["C07"] = &propCfg{
+		World: "fed07", QuickRuns: 20000, ThorRuns: 1000000, QuickSecs: 200, ThorSecs: 1800, Level: "exploration", MinNontriv: 50,
+		Rule:        "one case = twin execution of one generated (federation, operation): fault-free run recording requests and provenance, then a run with 1-3 injected faults (transport error, 500, 503 empty, empty body, non-JSON, truncated JSON, errors without data, data:null, short _entities batch) at tape-chosen requests; oracle: valid response, >=1 error, every request sent is a fault-free request with a subset of its representations, data == reference executed with the failed positions failing (positions with two admissible outcomes are compared either way). Non-trivial = at least one fault fired and at least two fault-free requests. Distinct = distinct hash of the context-switch sequence.",
+		Assumptions: append([]string{"a short _entities list is injected only into batches of >=2 (a single empty list is deliberately read as 'entity not found' by the loader)", "fields bundled by the plan into a request that depends on a failed @requires input are treated as dependent on it"}, fedAssume...), Components: fedComponents,
+	}
+	props["C09"] = &propCfg{
+		World: "fed09", QuickRuns: 6000, ThorRuns: 300000, QuickSecs: 200, ThorSecs: 1800, Level: "exploration", MinNontriv: 50,
+		Rule:        "one case = (a) the same operation planned by three fresh engines under three seeded map-iteration orders of the instrumented packages: identical subgraph requests; (b) a history of 3-8 requests from 1-3 concurrent clients over a pool of operations (renamed-variable and different-value variants) on one shared engine with a tape-chosen option set {multi-fetch, DAG scheduling, minification, de-duplication off, plan cache of size 1-2}: every response equals the same request alone on a fresh default engine. Non-trivial = history of >=3 requests over >=2 pool entries. Distinct = distinct hash of the context-switch sequence.",
+		Assumptions: append([]string{"map-order nondeterminism is only controlled inside the instrumented packages (plan, postprocess, resolve, graphql_datasource, httpclient, execution/engine); other packages keep Go's random order, which varies per run anyway"}, fedAssume...), Components: fedComponents,
+	}
 }
